@@ -8,6 +8,7 @@
 #define ELEM int
 #include "spec.hpp"
 #include <array>
+#include <boost/multi/array.hpp>
 #ifndef DIM
 #define DIM 2
 #endif
@@ -149,4 +150,36 @@ VF_HARNESS(array_ref_flat) {   // array_ref = array_ref: flat copy of contiguous
   else { vf_assert(g_dst[c] == 100 + c, "cell outside the array_ref is untouched"); }
   vf_assert(raw_of(A.data_elements()) == g_dst + od && A.num_elements() == ne, "array_ref not rebound");
   vf_reach("array_ref_flat");
+}
+
+// ---- moving from a view: element_moved() moves from exactly the viewed elements
+struct Mv { int v; int moved; Mv() : v(0), moved(0) {} Mv(Mv const& o) : v(o.v), moved(0) {} Mv(Mv&& o) noexcept : v(o.v), moved(0) { o.moved = 1; }
+  Mv& operator=(Mv const& o) { v = o.v; return *this; } Mv& operator=(Mv&& o) noexcept { v = o.v; o.moved = 1; return *this; } };
+extern "C" { Mv g_mv[MEMSZ2]; }
+VF_HARNESS(element_moved_exactly_viewed) {
+#pragma unroll
+  for(int c = 0; c < MEMSZ2; ++c) { g_mv[c].v = 300 + c; g_mv[c].moved = 0; }
+  Spec<D> s = arbitrary_spec<D>(1, 0, MEMSZ2); vf_assume(spec_injective(s));
+  multi::subarray<Mv, D> v(Lay<D>::make(s.d), g_mv + s.origin);
+  L form = vf_range(0, 1);
+  L c = vf_nondet_long(); vf_assume(0 <= c && c < MEMSZ2);
+  L i[D]; bool const viewed = spec_designates(s, c, i);
+  if(form == 0) {
+    multi::array<Mv, D> B(v.element_moved());          // construct from the element-moved view
+    if(viewed) {
+#if DIM == 1
+      vf_assert(B[i[0]].v == 300 + c, "the constructed array holds the moved values");
+#elif DIM == 2
+      vf_assert(B[i[0]][i[1]].v == 300 + c, "the constructed array holds the moved values");
+#else
+      vf_assert(B[i[0]][i[1]][i[2]].v == 300 + c, "the constructed array holds the moved values");
+#endif
+    }
+  } else {
+    multi::array<Mv, D> B(v);                             // plain copy for comparison: nothing may be marked
+    vf_assert(g_mv[c].moved == 0, "copying from a view moves from nothing");
+  }
+  if(form == 0) vf_assert((g_mv[c].moved == 1) == viewed, "element_moved moves from exactly the viewed elements");
+  vf_assert(g_mv[c].v == 300 + c, "source values are still readable");
+  vf_reach("element_moved_exactly_viewed");
 }
